@@ -1,6 +1,8 @@
 import MobiusModel.Containment
 import MobiusModel.Lockset
+import MobiusModel.RWLock
 import MobiusModel.Generated.Concurrency
+import MobiusModel.Generated.LockShape
 import MobiusModel.Spec.ConcurrencySpec
 /-!
   C03 — Hostile input is contained to the offending connection (PARTIAL: see docs/C03.md).
@@ -14,7 +16,11 @@ import MobiusModel.Spec.ConcurrencySpec
   * the source has the shape these two models assume (obligations over regenerated facts):
     both entry points recover panics first, every acquisition is followed by its deferred release,
     every lock is released by a deferred or paired unlock, every shared-map access is under a lock
-    (or on the documented allow-list), and the set of goroutines is the expected one.
+    (or on the documented allow-list), and the set of goroutines is the expected one;
+  * a goroutine that asks for a read lock it already holds while a writer is waiting is stuck for
+    good together with the writer, and with them every later user of that mutex (RWMutex model,
+    every continuation) — and the source contains no method that calls, while holding a mutex of
+    its receiver, another method of the receiver taking the same mutex (regenerated fact).
   What no executable model exhibits and is therefore only exercised (child-process server under
   hostile streams): memory exhaustion, scheduler fairness, goroutine pile-up behind a client that
   never reads, data races on non-map fields.
@@ -90,7 +96,42 @@ theorem map_accesses_never_overlap (sched : List (Nat × Lockset.Act)) (s : Lock
     (ht : s.inAcc t = true) (hu : s.inAcc u = true) : t = u :=
   Lockset.exclusive_of_inv s (Lockset.inv_run _ _ sched Lockset.inv_init hr) t u ht hu
 
+/-- Wedging through a re-entrant read lock: a goroutine holding a read lock of a `sync.RWMutex` (a
+    statistics reader) that asks for it again after a writer (a login, a disconnect, a transfer
+    updating a counter) has entered `Lock()` never gets it, the writer never gets the mutex either —
+    in EVERY continuation — and from then on no goroutine at all is admitted: the state behind the
+    mutex is lost to all connections although nothing crashed. -/
+theorem nested_read_lock_wedges_the_mutex (sched : List (Nat × RWLock.Act)) (s s' : RWLock.S) (r w : Nat)
+    (h : RWLock.Stuck s r w)
+    (hprog : ∀ ta ∈ sched, (ta.1 = r → ta.2 = .rlock) ∧ (ta.1 = w → ta.2 = .lockGrant))
+    (hrun : RWLock.run s sched = some s') :
+    (∀ ta ∈ sched, ta.1 ≠ r ∧ ta.1 ≠ w) ∧
+    ∀ t, RWLock.step s' t .rlock = none ∧ RWLock.step s' t .lockGrant = none := by
+  obtain ⟨hs', hall⟩ := RWLock.nested_rlock_deadlocks sched s s' r w h hprog hrun
+  exact ⟨hall, RWLock.stuck_blocks_everyone s' r w hs'⟩
+
+/-- … whereas a mutex whose holders always release next (no nested acquisition) can always move. -/
+theorem mutex_progress_when_holders_release (s : RWLock.S) :
+    (∃ t, t ∈ s.readers ∧ (RWLock.step s t .runlock).isSome) ∨
+    (∃ t, s.writer = some t ∧ (RWLock.step s t .unlock).isSome) ∨
+    (∃ t, t ∈ s.waiting ∧ (RWLock.step s t .lockGrant).isSome) ∨
+    (∀ t, (RWLock.step s t .rlock).isSome) :=
+  RWLock.progress_when_holders_release s
+
 /-! Obligations over the facts regenerated from /repo's source. -/
+
+/-- No method calls, while holding a mutex of its receiver (Lock or RLock), another method of the
+    same receiver that takes the same mutex (directly or through further methods of the receiver):
+    Go's mutexes are not re-entrant (`nested_read_lock_wedges_the_mutex`). -/
+theorem generated_no_self_locked_calls : Generated.selfLockedCalls = [] := by decide
+
+/-- The statistics are guarded the way the model assumes: writers take the write lock, the two
+    readers (`Get`, `Values`) the read lock. -/
+theorem generated_stats_lock_kinds :
+    Generated.lockingMethods.filter (fun e => e.1 == "hotline.Stats") =
+      [("hotline.Stats", "Decrement", "·.mu", "Lock"), ("hotline.Stats", "Get", "·.mu", "RLock"),
+       ("hotline.Stats", "Increment", "·.mu", "Lock"), ("hotline.Stats", "Set", "·.mu", "Lock"),
+       ("hotline.Stats", "Values", "·.mu", "RLock")] := by decide
 
 /-- Both connection entry points start with `defer dontPanic(…)`. -/
 theorem generated_entry_points_recover : ∀ e ∈ Generated.entryRecover, e.2 = true := by decide
@@ -124,5 +165,13 @@ example : net 0 [Eff.regAdd 1, Eff.regAdd 7, Eff.inc 0, Eff.inc 0, Eff.dec 0, Ef
 example : Lockset.run Lockset.init [(1, .acq), (1, .beginAcc), (1, .endAcc), (1, .rel), (2, .acq), (2, .beginAcc)] ≠ none := by
   decide
 example : Lockset.run Lockset.init [(1, .acq), (2, .acq)] = none := by decide
+-- reader 1 takes the read lock, writer 2 enters Lock(): stuck; connections 3 and 4 arrive and pile up behind them
+example : ∃ s, RWLock.run RWLock.init [(1, .rlock), (2, .lockReq)] = some s ∧ RWLock.Stuck s 1 2 :=
+  RWLock.stuck_after_reader_then_writer 1 2
+example : RWLock.run ⟨[1], none, [2]⟩ [(3, .lockReq), (4, .lockReq)] = some ⟨[1], none, [2, 3, 4]⟩ := by decide
+example : RWLock.step ⟨[1], none, [2, 3, 4]⟩ 1 .rlock = none ∧ RWLock.step ⟨[1], none, [2, 3, 4]⟩ 2 .lockGrant = none := by decide
+-- the same nesting with no writer in between returns
+example : RWLock.run RWLock.init [(1, .rlock), (1, .rlock), (1, .runlock), (1, .runlock)] = some RWLock.init :=
+  RWLock.nested_rlock_without_writer_returns 1
 
 end Mobius.C03
